@@ -55,10 +55,11 @@ BUILT = {
             "DESIGN.md section 6, C05"),
     "C06": ("model_checking",
             "exhaustive enumeration of programs (all ordered pairs of a ~200-line set, all triples of a core, all "
-            "k-line programs over a small core) x ALL 2^(k-1) call splits x start offsets x buffer fills, executed on the "
-            "real API and compared with the concatenation of single-line runs",
-            "relational (byte equality between runs of the implementation), immune to encoding defects; quick 82k / "
-            "thorough 1.3M histories",
+            "k-line programs over a small core) x ALL 2^(k-1) call splits x start offsets x buffer fills, and every line of "
+            "the 11k-line per-form corpus directly before and after each of ~65 state-sensitive lines; executed on the "
+            "real API and compared with the concatenation of single-line runs; long programs across buffer growth",
+            "relational (byte equality between runs of the implementation), immune to encoding defects; quick 1.45M / "
+            "thorough 5M+ programs",
             "the single-line output of each line under the same options is the reference; lines that do not assemble "
             "alone are dropped from the line set (listed in the evidence)", "DESIGN.md section 6, C06"),
     "C07": ("model_checking",
@@ -71,21 +72,24 @@ BUILT = {
             "guard pages, canaries and a before/after snapshot make out-of-range writes observable; asm_set_offset only "
             "with 0<=k<=n", "DESIGN.md section 6, C07"),
     "C13": ("model_checking",
-            "exhaustive enumeration of (chunk size, start position, instruction length) triples, short sequences and "
-            "on/off/resize switching histories on the real API (ASan build), lockstep with a placement model; padding "
-            "decoded by objdump",
-            "every (c, p, l) for c in 2..40,64,(4096), every length the library emits (1..14); sequences <= 3 over 7 "
-            "lengths; invariant 'no instruction shorter than c straddles' evaluated on the output itself",
+            "exhaustive enumeration of (chunk size, start position, instruction length) triples, short sequences, "
+            "on/off/resize switching histories (with counting calls in between) and every instruction FORM of the per-form "
+            "corpus at the phases that decide padding, under three option sets, on the real API (ASan build), lockstep with "
+            "a placement model; padding decoded by objdump",
+            "every (c, p, l) for c in 2..40,64,(4096), every length the library emits (1..14); sequences <= 3 (thorough: all "
+            "pairs over all lengths, 4-sequences) over 7 lengths; 11k forms x 3 chunk sizes x 5 phases; invariant 'no instruction shorter than c straddles' evaluated on the output itself",
             "objdump decides what a NOP is; instruction lengths harvested from the current tree",
             "DESIGN.md section 6, C13"),
     "C14": ("model_checking",
-            "exhaustive enumeration of (chunk size, start, length) triples, sequences <= 3/4 and repeated-call histories "
-            "on the real counting API (ASan build), lockstep with a counting model",
+            "exhaustive enumeration of (chunk size, start, length) triples, sequences <= 3/4, repeated-call histories over "
+            "power-of-two and other chunk sizes, the file entry point, and chunk sizes around the length of a growing "
+            "library-managed buffer, on the real counting API, lockstep with a counting model",
             "bytes must equal plain assembly and *dest the number of boundary-crossing instructions of this call only; "
             "c < 2 gives 0",
             "fitting never enabled (precondition of the statement)", "DESIGN.md section 6, C14"),
     "C15": ("model_checking",
-            "exhaustive call-history enumeration (all histories of depth <= 3/4 over 16 operations x 12 probes) on the real "
+            "exhaustive call-history enumeration (all histories of depth <= 3/4 over 20 operations incl. file entry points on "
+            "readable and missing files x 14 probes) on the real "
             "API (ASan build, one forked child per history) with a differential oracle: the same probe on a fresh "
             "instance carrying only the user-visible settings",
             "every history including failed calls, counting calls, second instances created/destroyed/used; the probe "
@@ -103,10 +107,11 @@ BUILT = {
             "comparison", "DESIGN.md section 6, C08"),
     "C09": ("model_checking",
             "exhaustive enumeration of input strings (all byte strings <= 2, all strings <= 5/6 over a structural alphabet, "
-            "all token sequences <= 4/5, all mnemonic x operand-menu lines, every length around each fixed parser array) "
-            "executed in-process on ASan+UBSan and MemorySanitizer builds of the real parser under 6 settings, with worker "
+            "all token sequences <= 4/5, all mnemonic x operand-menu lines, every length around each fixed parser array, and "
+            "every well-formed line of the per-form corpus and every address shape of the C02 grid) "
+            "executed in-process on ASan+UBSan and MemorySanitizer builds of the real parser under 7 settings, with worker "
             "restart behind every aborting / faulting / hanging input",
-            "quick 21.6M / thorough 520M executions; any sanitizer report, fatal signal, return value other than 0/1 or a "
+            "quick 25M / thorough 600M executions; any sanitizer report, fatal signal, return value other than 0/1 or a "
             "20 s hang is a violation attributed to the exact input",
             "sanitizers see what gcc 12 / clang 14 instrument at -O1; strings beyond the stated bounds are not covered",
             "DESIGN.md section 6, C09"),
@@ -137,8 +142,9 @@ BUILT = {
             "existing separator", "DESIGN.md section 6, C16"),
     "C17": ("fault_enumeration",
             "exhaustive fault enumeration: every single (quick) and every ordered pair (thorough) of refused libc calls "
-            "(malloc mmap mremap munmap open fstat close fopen fwrite fclose, interposed with -Wl,--wrap) along 5 API "
-            "scenarios, each run in a forked child",
+            "(malloc mmap mremap munmap open fstat close fopen fwrite fclose, interposed with -Wl,--wrap) along 13 API "
+            "scenarios (caller buffer, growth, growth with retry / under fitting / from the file entry point / in a counting "
+            "call, file assembly, empty file, binary output once, twice and of 200 kB), each run in a forked child",
             "each library-side libc call of each scenario is refused in turn (and in pairs, including calls that only "
             "appear on error paths), plus short-write variants of fwrite; the API call in progress must return its "
             "documented failure value, earlier code must stay intact, the instance destroyable, and asm_create_bin_file may "
@@ -148,32 +154,39 @@ BUILT = {
     "C18": ("model_checking",
             "stateless model checking of the real code: pre-emption-bounded exhaustive schedule enumeration (CHESS-style, "
             "depth-first over deviation sets) of 2-4 real pthreads under a cooperative scheduler, scheduling points injected "
-            "by -finstrument-functions and by shims around the global atomic tables; plus a separate free-running "
-            "ThreadSanitizer pass of the same thread bodies",
-            "every schedule with <= 2 pre-emptions (2 and 3 threads; <= 3 at coarse granularity in thorough) over ~250 "
-            "points per thread is executed; each thread's results must equal its single-threaded reference; TSan must stay "
-            "silent",
-            "sequentially consistent interleavings at function-entry/exit and table-access granularity; weaker memory "
-            "orderings are not modelled (the tables are _Atomic seq_cst, and TSan reports if they stop being so)",
+            "by compiler instrumentation: -finstrument-functions (function entry/exit) and -fsanitize=thread at compile time "
+            "only, with the __tsan_* entry points implemented by the scheduler (every atomic operation, every load/store of "
+            "writable global data), plus wrapped mmap/munmap/mremap/pthread_once/mutex calls; three thread bodies incl. one "
+            "with buffer growth, destroy and re-create; plus a separate free-running ThreadSanitizer pass of the same bodies",
+            "every schedule with <= 2 pre-emptions at function granularity and <= 3 (quick) / <= 4 (thorough) at "
+            "shared-access granularity for 2 threads, <= 2/3 for 3 threads, <= 2 for 4 threads is executed in a fresh "
+            "process; each thread's results must equal its single-threaded reference; TSan must stay silent",
+            "sequentially consistent interleavings at the instrumented points; weaker memory orderings are not modelled; "
+            "heap objects reachable from a global pointer are visible at the pointer access only",
             "DESIGN.md section 6, C18"),
     "C19": ("model_checking",
             "exhaustive enumeration of file sizes (0..64 and +-8 around 1, 2, 3 pages) x 4 endings x both file entry points "
             "on the real API with text buffers placed flush against a PROT_NONE page, compared with the string entry points "
-            "on the same contents; bad paths; binary output at 6 offsets read back",
+            "on the same contents, on fresh and on configured instances, and as two (11x11 sizes) and three (7x7x7 sizes) "
+            "successive file calls on one instance; bad paths and permissions; binary output at 6 offsets read back, over an "
+            "existing file and twice",
             "return value, offset, bytes and count of asm_assemble_file / _counting_chunks must equal those of the string "
             "calls; a read past the end of the text faults deterministically",
-            "file contents are valid programs of nop / comment filler; permission-based unreadable files not covered (may "
-            "run as root)", "DESIGN.md section 6, C19"),
+            "file contents are valid programs of nop / comment filler; permission cases run under uid 65534 when the "
+            "scratch directory is reachable for it", "DESIGN.md section 6, C19"),
     "C20": ("model_checking",
             "exhaustive enumeration of asmline invocations (programs x mode-flag sets x outputs x source) as real processes, "
-            "each compared with the same program through the library API under the setter calls the flag documents",
-            "quick 1.2k / thorough 10k process runs: binary files, -p hex (chunk rows), -b count, -r value and exit status "
+            "each compared with the same program through the library API under the setter calls the flag documents; programs "
+            "of every line count 1..260 (thorough ..600) and around 512..4096 through -P and -b from stdin and FILE",
+            "quick 2.8k / thorough 22k process runs: binary files, -p hex (chunk rows), -b count, -r value and exit status "
             "must reflect the library result; stdin must equal FILE",
-            "conflicting flags of one option dimension are not combined (no documented order); -r programs end in ret",
+            "two flags of one option dimension are combined only in the orders whose meaning does not depend on how 'is "
+            "equivalent to' is read (umbrella first, or same rank); -r programs end in ret",
             "DESIGN.md section 6, C20"),
     "C12": ("model_checking",
             "explicit-state BFS over the real setter API to a fixpoint, lockstep with a documentation model; plus all "
-            "setter sequences up to depth 3/4 and all two-instance interleavings up to depth 2/3, exhaustively",
+            "setter sequences up to depth 3/4, all two-instance interleavings up to depth 2/3, and a successor instance "
+            "after an instance destroyed in each of the 12 states (both buffer kinds on both sides), exhaustively",
             "every reachable option state (12) x every transition (20) of the real implementation is executed and "
             "compared with the documented semantics; deduplication is cross-checked by unreduced enumeration",
             "trusts the documented probe-line byte patterns (header comments / README) as the meaning of each option "
